@@ -110,8 +110,8 @@ type c09CatMapField struct {
 	N  map[string]string
 	I  interface{} `query:"i" form:"i"`
 	J  interface{}
-	S  C09Inner `query:"s" form:"s" param:"s"` // tagged plain struct: "unknown type" when the key is sent
-	P  *C09Inner `query:"p" form:"p"`          // tagged pointer to struct: allocated, then "unknown type"
+	S  C09Inner  `query:"s" form:"s" param:"s"` // tagged plain struct: "unknown type" when the key is sent
+	P  *C09Inner `query:"p" form:"p"`           // tagged pointer to struct: allocated, then "unknown type"
 	Q  *C09Inner // untagged pointer to struct: not walked
 	ID string    `query:"id" form:"id" param:"id" header:"id" json:"id"`
 }
